@@ -216,6 +216,112 @@ impl Peers {
     }
 }
 
+#[derive(Debug)]
+struct NoVerify;
+impl rustls::client::danger::ServerCertVerifier for NoVerify {
+    fn verify_server_cert(&self, _: &rustls::pki_types::CertificateDer<'_>, _: &[rustls::pki_types::CertificateDer<'_>], _: &rustls::pki_types::ServerName<'_>, _: &[u8], _: rustls::pki_types::UnixTime) -> Result<rustls::client::danger::ServerCertVerified, rustls::Error> {
+        Ok(rustls::client::danger::ServerCertVerified::assertion())
+    }
+    fn verify_tls12_signature(&self, _: &[u8], _: &rustls::pki_types::CertificateDer<'_>, _: &rustls::DigitallySignedStruct) -> Result<rustls::client::danger::HandshakeSignatureValid, rustls::Error> {
+        Ok(rustls::client::danger::HandshakeSignatureValid::assertion())
+    }
+    fn verify_tls13_signature(&self, _: &[u8], _: &rustls::pki_types::CertificateDer<'_>, _: &rustls::DigitallySignedStruct) -> Result<rustls::client::danger::HandshakeSignatureValid, rustls::Error> {
+        Ok(rustls::client::danger::HandshakeSignatureValid::assertion())
+    }
+    fn supported_verify_schemes(&self) -> Vec<rustls::SignatureScheme> {
+        use rustls::SignatureScheme::*;
+        vec![RSA_PKCS1_SHA256, RSA_PKCS1_SHA384, RSA_PKCS1_SHA512, ECDSA_NISTP256_SHA256, ECDSA_NISTP384_SHA384, ECDSA_NISTP521_SHA512, ED25519, RSA_PSS_SHA256, RSA_PSS_SHA384, RSA_PSS_SHA512]
+    }
+}
+
+/// plain local socket <-> TLS connection to `target`, all non-blocking, with back-pressure in both directions
+fn tls_bridge(bridge: TcpListener, target: SocketAddr) {
+    let Ok((mut local, _)) = bridge.accept() else { return };
+    let _ = rustls::crypto::ring::default_provider().install_default();
+    let mut config = rustls::ClientConfig::builder().dangerous().with_custom_certificate_verifier(std::sync::Arc::new(NoVerify)).with_no_client_auth();
+    config.alpn_protocols = vec![b"http/1.1".to_vec()];
+    let name = rustls::pki_types::ServerName::try_from("lolcatho.st".to_owned()).unwrap();
+    let Ok(mut conn) = rustls::ClientConnection::new(std::sync::Arc::new(config), name) else { return };
+    let Ok(mut tcp) = TcpStream::connect_timeout(&target, Duration::from_secs(5)) else { return };
+    tcp.set_nodelay(true).unwrap();
+    tcp.set_nonblocking(true).unwrap();
+    local.set_nonblocking(true).unwrap();
+    let mut pending: Vec<u8> = vec![]; // local -> tls
+    let mut to_local: Vec<u8> = vec![]; // tls -> local
+    let (mut local_eof, mut close_sent, mut fin_sent, mut tls_eof, mut local_fin) = (false, false, false, false, false);
+    let t0 = Instant::now();
+    let mut buf = vec![0u8; 65536];
+    while t0.elapsed() < Duration::from_secs(60) {
+        let mut progress = false;
+        if !local_eof && pending.len() < 65536 {
+            match local.read(&mut buf) {
+                Ok(0) => { local_eof = true; progress = true; }
+                Ok(n) => { pending.extend_from_slice(&buf[..n]); progress = true; }
+                Err(e) if e.kind() == ErrorKind::WouldBlock => {}
+                Err(_) => local_eof = true,
+            }
+        }
+        if !pending.is_empty() && !conn.is_handshaking() {
+            if let Ok(n) = conn.writer().write(&pending) {
+                if n > 0 { pending.drain(..n); progress = true; }
+            }
+        }
+        if local_eof && pending.is_empty() && !close_sent && !conn.is_handshaking() {
+            conn.send_close_notify();
+            close_sent = true;
+        }
+        while conn.wants_write() {
+            match conn.write_tls(&mut tcp) {
+                Ok(0) => break,
+                Ok(_) => progress = true,
+                Err(e) if e.kind() == ErrorKind::WouldBlock => break,
+                Err(_) => return,
+            }
+        }
+        if close_sent && !conn.wants_write() && !fin_sent {
+            let _ = tcp.shutdown(Shutdown::Write);
+            fin_sent = true;
+        }
+        if !tls_eof && to_local.len() < 1 << 20 && conn.wants_read() {
+            match conn.read_tls(&mut tcp) {
+                Ok(0) => { tls_eof = true; progress = true; }
+                Ok(_) => {
+                    progress = true;
+                    if conn.process_new_packets().is_err() { tls_eof = true; }
+                }
+                Err(e) if e.kind() == ErrorKind::WouldBlock => {}
+                Err(_) => tls_eof = true,
+            }
+        }
+        loop {
+            match conn.reader().read(&mut buf) {
+                Ok(0) => { tls_eof = true; break; }
+                Ok(n) => { to_local.extend_from_slice(&buf[..n]); progress = true; }
+                Err(_) => break,
+            }
+            if to_local.len() >= 1 << 20 { break; }
+        }
+        if !to_local.is_empty() {
+            match local.write(&to_local) {
+                Ok(n) if n > 0 => { to_local.drain(..n); progress = true; }
+                Ok(_) => {}
+                Err(e) if e.kind() == ErrorKind::WouldBlock => {}
+                Err(_) => return,
+            }
+        }
+        if tls_eof && to_local.is_empty() && !local_fin {
+            let _ = local.shutdown(Shutdown::Write);
+            local_fin = true;
+        }
+        if local_fin && fin_sent {
+            return;
+        }
+        if !progress {
+            idle();
+        }
+    }
+}
+
 fn first_diff(a: &[u8], b: &[u8]) -> usize {
     a.iter().zip(b.iter()).position(|(x, y)| x != y).unwrap_or(a.len().min(b.len()))
 }
@@ -345,52 +451,12 @@ fn main() {
 
     // ---- connect the client, send the incoming header if the mode wants one, accept on the backend
     let connect_to: SocketAddr = if mode == "wss" {
-        // TLS client: `openssl s_client` behind a local plain-TCP bridge, so the scripted client stays a socket
+        // TLS client: a rustls ClientConnection pumped by hand (everything non-blocking) behind a local plain-TCP
+        // bridge, so the scripted client stays a socket; the client's shutdown(Write) becomes close_notify + FIN
         let bridge = TcpListener::bind("127.0.0.1:0").unwrap();
         let baddr = bridge.local_addr().unwrap();
         let target = front;
-        std::thread::spawn(move || {
-            let Ok((sock, _)) = bridge.accept() else { return };
-            let child = std::process::Command::new("openssl")
-                .args(["s_client", "-connect", &target.to_string(), "-servername", "lolcatho.st", "-quiet", "-no_ign_eof", "-nocommands"])
-                .stdin(std::process::Stdio::piped())
-                .stdout(std::process::Stdio::piped())
-                .stderr(std::process::Stdio::null())
-                .spawn();
-            let Ok(mut child) = child else { return };
-            let mut cin = child.stdin.take().unwrap();
-            let mut cout = child.stdout.take().unwrap();
-            let mut s_in = sock.try_clone().unwrap();
-            let mut s_out = sock;
-            let t = std::thread::spawn(move || {
-                let mut buf = [0u8; 65536];
-                loop {
-                    match s_in.read(&mut buf) {
-                        Ok(0) | Err(_) => break,
-                        Ok(n) => {
-                            if cin.write_all(&buf[..n]).is_err() || cin.flush().is_err() {
-                                break;
-                            }
-                        }
-                    }
-                }
-                drop(cin); // end of the client's stream: s_client shuts the TLS connection down
-            });
-            let mut buf = [0u8; 65536];
-            loop {
-                match cout.read(&mut buf) {
-                    Ok(0) | Err(_) => break,
-                    Ok(n) => {
-                        if s_out.write_all(&buf[..n]).is_err() {
-                            break;
-                        }
-                    }
-                }
-            }
-            let _ = s_out.shutdown(Shutdown::Write);
-            let _ = t.join();
-            let _ = child.wait();
-        });
+        std::thread::spawn(move || tls_bridge(bridge, target));
         baddr
     } else {
         front
@@ -614,6 +680,9 @@ fn main() {
             // the backend reads until it sees the end of the client's stream
             p.until_eof(false);
             if scenario == "c_fin_cross" {
+                // the backend, having seen the end of the request, ends its own stream; the client then sees the end too
+                let _ = p.backend.shutdown(Shutdown::Write);
+                b_fin = true;
                 p.until_eof(true);
             }
         }
